@@ -212,6 +212,13 @@ func runC08(c *eng.Ctx) {
 	c.Rule("R01.8", "K5")
 	ruleLogShapes(c)
 	c.Floor(20)
+	c.Rule("R01.9", "K5")
+	ruleReaderSegment(c)
+	c.Floor(6)
+	// appends that roll a segment while a compaction runs
+	c.Rule("R09.7", "K1")
+	ruleCleanSwap(c)
+	c.Floor(1)
 
 	// ---- R08.6 readers re-initialise
 	c.Rule("R08.6", "K4")
